@@ -20,6 +20,8 @@ def add_sampler(ctx, every=53):
     state = {"n": 0}
 
     def sample_light(case, root=None, **obs):
+        if root is not None and not root.children and len(ctx.samples) >= 2:
+            return  # prefer cases on which something was observed
         state["n"] += 1
         if state["n"] % every != 1:
             return
